@@ -329,6 +329,41 @@ fn err_kind_name(e: &std::io::Error) -> String {
     format!("{:?}", e.kind())
 }
 
+/// An emplacer that scribbles over the bytes it was given and then fails: a legal outcome of
+/// `new_in_place` (e.g. a value that does not fit) after which the sender must be as before.
+pub struct FailEmp;
+unsafe impl<M: FlatUnsized + ?Sized> flatty::Emplacer<M> for FailEmp {
+    unsafe fn emplace_unchecked(self, bytes: &mut [u8]) -> Result<&mut M, flatty::Error> {
+        bytes.fill(0xEE);
+        Err(flatty::Error { kind: flatty::error::ErrorKind::InsufficientSize, pos: 0 })
+    }
+}
+
+/// Per-run sender policy: how often (of 8) a guard is abandoned before a message, and the byte
+/// the vacant send buffer is filled with before a message is built (None = leave as it is).
+fn sender_policy(sh: &Shared) -> (u32, Option<u8>) {
+    let mut w = lock(sh);
+    let a = [0u32, 1, 3][w.dec.weighted(St::Policy, &[5, 2, 1])];
+    let f = [None, Some(0xFFu8), Some(0xA5), Some(0x01)][w.dec.weighted(St::Policy, &[3, 1, 1, 1])];
+    (a, f)
+}
+fn abandon_kind(sh: &Shared, p: u32) -> Option<u32> {
+    if p == 0 {
+        return None;
+    }
+    let mut w = lock(sh);
+    if w.dec.chance(St::Policy, p, 8) {
+        let k = w.dec.below(St::Policy, 4);
+        w.probe(P::abandoned_guard);
+        if k == 2 {
+            w.probe(P::failed_emplace_then_send);
+        }
+        Some(k)
+    } else {
+        None
+    }
+}
+
 // ---- blocking parties -----------------------------------------------------------------------
 
 pub fn sender_blocking<M: ZooMsg + ?Sized>(sh: Shared, plan: Arc<Plan>) {
@@ -339,15 +374,47 @@ pub fn sender_blocking<M: ZooMsg + ?Sized>(sh: Shared, plan: Arc<Plan>) {
         };
         let mut i = 0usize;
         let mut resends = 0u32;
+        let (abandon_p, prefill) = sender_policy(&sh);
         while i < plan.msgs.len() {
             let mp = &plan.msgs[i];
             let poisoned = sender.verif_buffer().verif_state().3;
+            // legal API sequences that put nothing on the wire: a guard that is allocated and
+            // dropped (untouched, scribbled, after a failed emplacement, or fully built)
+            if !poisoned {
+                if let Some(k) = abandon_kind(&sh, abandon_p) {
+                    if let Ok(mut ug) = sender.alloc() {
+                        match k {
+                            0 => drop(ug),
+                            1 => {
+                                ug.as_mut_bytes().fill(0xEE);
+                                drop(ug)
+                            }
+                            2 => {
+                                if ug.new_in_place(FailEmp).is_ok() {
+                                    lock(&sh).harness_error = Some("FailEmp succeeded".into());
+                                    return;
+                                }
+                            }
+                            _ => drop(ug.new_in_place(emp::<M>(&mp.val))),
+                        }
+                    }
+                }
+            }
             let ug = match sender.alloc() {
                 Ok(g) => g,
                 Err(e) => {
                     lock(&sh).harness_error = Some(format!("alloc failed: {}", err_kind_name(&e)));
                     return;
                 }
+            };
+            let ug = match prefill {
+                Some(b) => {
+                    let mut ug = ug;
+                    ug.as_mut_bytes().fill(b);
+                    lock(&sh).probe(P::send_buffer_prefilled);
+                    ug
+                }
+                None => ug,
             };
             let built = if mp.use_default {
                 ug.default_in_place()
@@ -452,6 +519,7 @@ pub fn receiver_blocking<M: ZooMsg + ?Sized>(sh: Shared, plan: Arc<Plan>) {
         };
         let mut retries = 0u32;
         let mut parse_seen = 0u32;
+        let mut after_closed = false;
         loop {
             {
                 let mut w = lock(&sh);
@@ -516,7 +584,18 @@ pub fn receiver_blocking<M: ZooMsg + ?Sized>(sh: Shared, plan: Arc<Plan>) {
                     };
                     retries += 1;
                     if !(retry && retries <= 8) {
-                        stop = true;
+                        // the end of the stream is stable: in some runs ask once more
+                        let once_more = !after_closed && {
+                            let mut w = lock(&sh);
+                            let ex = (w.pipe.writer_closed && w.pipe.buf.is_empty()) || w.eof_at.map(|k| w.pipe.delivered_total >= k).unwrap_or(false);
+                            ex && w.dec.chance(St::Policy, 1, 4)
+                        };
+                        if once_more {
+                            after_closed = true;
+                            lock(&sh).probe(P::recv_after_closed);
+                        } else {
+                            stop = true;
+                        }
                     }
                 }
                 Ok(Err(RecvError::Parse(e))) => {
@@ -575,15 +654,46 @@ pub async fn sender_async<M: ZooMsg + ?Sized>(sh: Shared, plan: Arc<Plan>) {
     };
     let mut i = 0usize;
     let mut resends = 0u32;
+    let (abandon_p, prefill) = sender_policy(&sh);
     while i < plan.msgs.len() {
         let mp = &plan.msgs[i];
         let poisoned = sender.verif_buffer().verif_state().3;
+        // see sender_blocking
+        if !poisoned {
+            if let Some(k) = abandon_kind(&sh, abandon_p) {
+                if let Ok(mut ug) = sender.alloc().await {
+                    match k {
+                        0 => drop(ug),
+                        1 => {
+                            ug.as_mut_bytes().fill(0xEE);
+                            drop(ug)
+                        }
+                        2 => {
+                            if ug.new_in_place(FailEmp).is_ok() {
+                                lock(&sh).harness_error = Some("FailEmp succeeded".into());
+                                return;
+                            }
+                        }
+                        _ => drop(ug.new_in_place(emp::<M>(&mp.val))),
+                    }
+                }
+            }
+        }
         let ug = match sender.alloc().await {
             Ok(g) => g,
             Err(e) => {
                 lock(&sh).harness_error = Some(format!("alloc failed: {}", err_kind_name(&e)));
                 return;
             }
+        };
+        let ug = match prefill {
+            Some(b) => {
+                let mut ug = ug;
+                ug.as_mut_bytes().fill(b);
+                lock(&sh).probe(P::send_buffer_prefilled);
+                ug
+            }
+            None => ug,
         };
         let built = if mp.use_default {
             ug.default_in_place()
@@ -657,6 +767,7 @@ pub async fn receiver_async<M: ZooMsg + ?Sized>(sh: Shared, plan: Arc<Plan>) {
     };
     let mut retries = 0u32;
     let mut parse_seen = 0u32;
+    let mut after_closed = false;
     loop {
         {
             let mut w = lock(&sh);
@@ -716,7 +827,17 @@ pub async fn receiver_async<M: ZooMsg + ?Sized>(sh: Shared, plan: Arc<Plan>) {
                 };
                 retries += 1;
                 if !(retry && retries <= 8) {
-                    stop = true;
+                    let once_more = !after_closed && {
+                        let mut w = lock(&sh);
+                        let ex = (w.pipe.writer_closed && w.pipe.buf.is_empty()) || w.eof_at.map(|k| w.pipe.delivered_total >= k).unwrap_or(false);
+                        ex && w.dec.chance(St::Policy, 1, 4)
+                    };
+                    if once_more {
+                        after_closed = true;
+                        lock(&sh).probe(P::recv_after_closed);
+                    } else {
+                        stop = true;
+                    }
                 }
             }
             Err(RecvError::Parse(e)) => {
